@@ -46,7 +46,7 @@ ASSUMPTIONS = [
     "rulebooks are compiled once per process (annet caches them); a sample of cases is re-run at the end of each "
     "block to detect order dependence",
 ]
-BUDGET = {"quick": 240, "thorough": 1500}   # about 20 s / 6 min on 16 idle cores; generous because the box is shared
+BUDGET = {"quick": 240, "thorough": 1800}   # ~20 s / ~6 min on 16 idle cores (0.8 ms per case); generous: the box is shared
 
 V4 = [2, 3, 6, 100]
 V5 = [2, 3, 4, 6, 100]
